@@ -444,7 +444,11 @@ func (P *Program) instrMods(fn *ssa.Function, in ssa.Instruction, fresh map[ssa.
 			m[ghRecvd] = true
 		}
 	case *ssa.Go:
-		m[ghSpawn] = true
+		if callee := x.Call.StaticCallee(); callee != nil {
+			m[ghSpawn+"$"+relName(callee)] = true
+		} else {
+			m[ghSpawn] = true
+		}
 	case ssa.CallInstruction:
 		P.callMods(fn, x.Common(), m)
 	}
@@ -598,6 +602,9 @@ func (P *Program) modExprKeys(fn *ssa.Function, ct *Contract, e *Expr) []string 
 		case "recvd":
 			return []string{ghRecvd}
 		case "spawned":
+			if len(e.Args) == 1 && e.Args[0].Kind == "str" {
+				return []string{ghSpawn + "$" + e.Args[0].Lit}
+			}
 			return []string{ghSpawn}
 		case "elems":
 			if len(e.Args) == 1 {
